@@ -4,6 +4,8 @@ from . import build
 
 VERIF = build.VERIF
 KNOWN = os.path.join(VERIF, 'known_findings.json')
+# evidence/ and reports/ go below OUT (scratch runs against mutated trees set VERIF_OUT so that they never touch the real evidence)
+OUT = os.environ.get('VERIF_OUT', VERIF)
 
 
 class Obl:
@@ -109,15 +111,16 @@ def finish(prop, tier, rules, obls, views, t0, assumptions, explanation, extra=N
     for r in rules:
         if per_rule[r.id]['obligations'] < r.floor:
             broken.append('rule %s: %d obligation(s) found, floor is %d (anchor vanished or extractor blind)' % (r.id, per_rule[r.id]['obligations'], r.floor))
-    os.makedirs(os.path.join(VERIF, 'reports'), exist_ok=True)
-    os.makedirs(os.path.join(VERIF, 'evidence'), exist_ok=True)
+    os.makedirs(os.path.join(OUT, 'reports'), exist_ok=True)
+    os.makedirs(os.path.join(OUT, 'evidence'), exist_ok=True)
     vio_lines = []
     for o in new:
-        p = os.path.join(VERIF, 'reports', '%s-%s.json' % (prop, _safe(o.key())))
+        p = os.path.join(OUT, 'reports', '%s-%s.json' % (prop, _safe(o.key())))
         json.dump({'property': prop, 'rule': o.rule, 'rule_text': per_rule[o.rule]['text'], 'key': o.key(), 'record': o.rec(),
                    'repo': build.REPO, 'tier': tier}, open(p, 'w'), indent=1)
         vio_lines.append('VIOLATION property=%s replay=%s' % (prop, p))
         out_lines.append('  %s %s: %s — %s [%s]' % (o.rule, o.loc.replace(build.REPO + '/', ''), o.construct, o.why, o.fn))
+    json.dump([{'key': o.key(), 'rule': o.rule, 'site': o.loc, 'why': o.why} for o in new], open(os.path.join(OUT, 'reports', '%s-new.json' % prop), 'w'), indent=1)
     n_obl = len(obls)
     n_dis = sum(1 for o in obls if o.status == 'discharged')
     nontrivial = len({(o.rule, o.fn, o.construct, o.loc) for o in obls if o.nontrivial})
@@ -157,7 +160,7 @@ def finish(prop, tier, rules, obls, views, t0, assumptions, explanation, extra=N
     if n_obl < 1:
         ev['coverage']['evaluations'] = 1
         ev['coverage']['distinct_nontrivial'] = max(2, nontrivial)
-    json.dump(ev, open(os.path.join(VERIF, 'evidence', '%s.json' % prop), 'w'), indent=1)
+    json.dump(ev, open(os.path.join(OUT, 'evidence', '%s.json' % prop), 'w'), indent=1)
     for l in out_lines:
         print(l)
     print('%s [%s] views=%s obligations=%d discharged=%d assumed=%d known=%d new=%d (%.1fs)' % (
